@@ -832,6 +832,11 @@ func splitInlineBox(context *layoutContext, box_ Box, positionX, maxX, bottomSpa
 	leftSpacing := box.PaddingLeft.V() + box.MarginLeft.V() + box.BorderLeftWidth.V()
 	rightSpacing := box.PaddingRight.V() + box.MarginRight.V() + box.BorderRightWidth.V()
 	contentBoxLeft := positionX
+	// the children are laid out from positionX and translated by the start spacing afterwards:
+	// charge that spacing against the room available to them
+	if bo.InlineT.IsInstance(box_) && box.Style.GetDirection() == "ltr" && (isStart || box.Style.GetBoxDecorationBreak() == "clone") {
+		maxX -= leftSpacing
+	}
 
 	if box.Style.GetPosition().String == "relative" {
 		absoluteBoxes = &[]*AbsolutePlaceholder{}
